@@ -282,7 +282,41 @@ pub fn mutate_source_text(src: &str, other: &str, t: &mut Tape) -> (String, Stri
     let mut what = vec![];
     let n = 1 + t.pick(4);
     for _ in 0..n {
-        match t.pick(13) {
+        match t.pick(14) {
+            12 => {
+                // a number literal out of the ordinary: replace one run of digits (or insert at
+                // a random place) with a huge, tiny, signed, dotted or malformed number
+                const NUMS: [&str; 12] = [
+                    "99999999999999999999",
+                    "333333333333333333333333333333333333333333333333333333.5",
+                    "0.000000000000000000000000000000000000000000000000000001",
+                    "2147483648",
+                    "-2147483649",
+                    "1.",
+                    ".5",
+                    "1.2.3",
+                    "1e40",
+                    "0x10",
+                    "00000000000",
+                    "4.0e",
+                ];
+                let num: Vec<char> = NUMS[t.pick(NUMS.len())].chars().collect();
+                let starts: Vec<usize> = (0..chars.len())
+                    .filter(|&i| chars[i].is_ascii_digit() && (i == 0 || !chars[i - 1].is_ascii_digit()))
+                    .collect();
+                if !starts.is_empty() && t.chance(3, 4) {
+                    let i = starts[t.pick(starts.len())];
+                    let mut j = i;
+                    while j < chars.len() && (chars[j].is_ascii_digit() || chars[j] == '.') {
+                        j += 1;
+                    }
+                    chars.splice(i..j, num);
+                } else {
+                    let i = t.pick(chars.len() + 1);
+                    chars.splice(i..i, num);
+                }
+                what.push("number");
+            }
             11 => {
                 // a backslash escape in front of an ordinary, a structural or a multi-byte
                 // character, preferably inside braces / brackets / quotes / tags
